@@ -9,6 +9,8 @@
  * exactly-sized heap block so that ASan sees any over-read / over-write.
  */
 #include "mcx.h"
+/* small ASan quarantine: freed blocks are reused quickly instead of every malloc touching fresh pages (20-40x faster here) */
+const char *__asan_default_options(void) { return "quarantine_size_mb=4:thread_local_quarantine_size_kb=64"; }
 #include <stdio.h>
 #include <stdlib.h>
 #include <string.h>
